@@ -1,5 +1,99 @@
-"""Thorough tier: run the mutant/twin catalogue slice for one property (built later)."""
+"""Thorough tier: the checker's own validation.  Mutants from selftest/catalogue.py must be
+reported by the named rule on a scratch copy of the current tree; twins must stay silent.
+Scratch copies live under a temp directory outside /repo and /verif and are removed at once.
+A missed mutant or a firing twin means the CHECKER is broken (ANALYSIS-ERROR, exit 2) — the
+property verdict itself only ever comes from the analysis of /repo."""
+
+from __future__ import annotations
+
+import importlib
+import os
+import py_compile
+import re
+import shutil
+import tempfile
+from concurrent.futures import ProcessPoolExecutor
+from typing import Dict, List, Tuple
+
+from .core import REPO, AnalysisError
 
 
-def run_for(pid: str) -> int:
-    return 0
+def _apply(entry: dict, scratch: str) -> Tuple[bool, str]:
+    touched = set()
+    for file, old, new, count in entry["edits"]:
+        path = os.path.join(scratch, file)
+        if not os.path.exists(path):
+            return False, f"{file} missing"
+        src = open(path, encoding="utf-8").read()
+        if src.count(old) != count:
+            return False, f"anchor occurs {src.count(old)}x (expected {count}) in {file}"
+        open(path, "w", encoding="utf-8").write(src.replace(old, new))
+        touched.add(path)
+    for p in touched:
+        try:
+            compile(open(p, encoding="utf-8").read(), p, "exec")
+        except Exception as e:  # the variant must still compile
+            return False, f"variant does not compile: {e}"
+    return True, ""
+
+
+def _run_variant(args) -> dict:
+    entry, pid, kind = args
+    from .main import Ctx
+    from .report import Report, load_known
+
+    scratch = tempfile.mkdtemp(prefix="microjs-selftest-")
+    try:
+        shutil.copytree(os.path.join(REPO, "src"), os.path.join(scratch, "src"))
+        ok, why = _apply(entry, scratch)
+        if not ok:
+            return {"id": entry["id"], "kind": kind, "status": "skipped", "why": why}
+        ctx = Ctx("quick", repo=scratch)
+        rep = Report(pid, "quick")
+        try:
+            importlib.import_module(f"sa.props.{pid.lower()}").run(ctx, rep)
+            for rid, r in rep.rules.items():
+                if r["instances"] < r["floor"]:
+                    raise AnalysisError(f"rule {rid} below its floor")
+        except AnalysisError as e:
+            return {"id": entry["id"], "kind": kind, "status": "analysis-error", "why": str(e)}
+        known = {f"{e['rule']}|{e['key']}" for e in load_known() if e.get("status") != "fixed" and e.get("property") == pid}
+        new = [f for f in rep.findings if f.ident() not in known]
+        if kind == "twin":
+            return {"id": entry["id"], "kind": kind, "status": "silent" if not new else "FIRED", "findings": [f"{f.rule} {f.key}" for f in new][:5]}
+        want = [(r, k) for p, r, k in entry["expect"] if p == pid]
+        if not want:
+            return {"id": entry["id"], "kind": kind, "status": "no-expectation", "findings": [f"{f.rule} {f.key}" for f in new][:5]}
+        hit = [f for f in new if any(re.search(r, f.rule) and re.search(k, f.key) for r, k in want)]
+        return {"id": entry["id"], "kind": kind, "status": "detected" if hit else "MISSED", "findings": [f"{f.rule} {f.key}" for f in (hit or new)][:5], "want": want}
+    finally:
+        shutil.rmtree(scratch, ignore_errors=True)
+
+
+def run_for(pid: str, rep=None, jobs: int = 16) -> Dict:
+    from selftest import catalogue as C
+
+    work = [(m, pid, "mutant") for m in C.MUTANTS if pid in m["props"]] + [(t, pid, "twin") for t in C.TWINS if pid in t["props"]]
+    results: List[dict] = []
+    if work:
+        with ProcessPoolExecutor(max_workers=min(jobs, len(work))) as ex:
+            results = list(ex.map(_run_variant, work))
+    summary = {
+        "mutants": sum(1 for r in results if r["kind"] == "mutant"),
+        "detected": sum(1 for r in results if r["status"] == "detected"),
+        "documented_gaps": [r["id"] for r in results if r["status"] == "no-expectation"],
+        "twins": sum(1 for r in results if r["kind"] == "twin"),
+        "silent": sum(1 for r in results if r["status"] == "silent"),
+        "skipped": [f"{r['id']}: {r['why']}" for r in results if r["status"] == "skipped"],
+        "details": results,
+    }
+    bad = [r for r in results if r["status"] in ("MISSED", "FIRED", "analysis-error")]
+    for r in results:
+        print(f"  selftest {r['kind']:6s} {r['id']:38s} {r['status']}" + (f"  {r.get('findings') or r.get('why')}" if r["status"] not in ("detected", "silent") else ""))
+    if rep is not None:
+        rep.analysed["selftest"] = {k: v for k, v in summary.items() if k != "details"}
+        for r in results[:6]:
+            rep.samples.append({"rule": "selftest", "instance": r["id"], "verdict": r["status"], "evidence": r.get("findings")})
+    if bad:
+        raise AnalysisError("self-test failed: " + "; ".join(f"{r['id']} {r['status']}" for r in bad))
+    return summary
